@@ -10,3 +10,7 @@ Definition gen_consensus_needed_times_1000 : Z := 700%Z.
 Definition gen_oracle_keeper_uses_default_threshold : Z := 1%Z.
 Definition gen_trailing_blocks : Z := 50%Z.
 Definition gen_relayer_loop_actions : list string := ["Sleep"; "Get"; "FilterLogs"; "handleEthereumEvent"; "Sleep"; "Put"].
+Definition gen_relayer_db_accesses : list (string * string * string * string) := [("cosmos.go", "CosmosSub.Start", "Get", "[]byte(cosmosLevelDBKey)");
+  ("cosmos.go", "CosmosSub.Start", "Put", "[]byte(cosmosLevelDBKey)");
+  ("ethereum.go", "EthereumSub.Start", "Get", "[]byte(ethLevelDBKey)");
+  ("ethereum.go", "EthereumSub.Start", "Put", "[]byte(ethLevelDBKey)")].
